@@ -55,6 +55,16 @@ def sx_parse(s):
     return rd()
 
 
+_ERR_RE = re.compile(r'\(err ([01]) \((?:"[^"]*" ?)*\)\)')
+
+
+def strip_err_paths(text, keep_flag=False):
+    """Project error observations: `(err C (segments...))` -> `err` (or `(err C)`).  With several
+    simultaneous faults the FIRST error depends on Go's map iteration order and is not a property, so
+    only the single-fault families (C17) compare paths."""
+    return _ERR_RE.sub((lambda m: "(err %s)" % m.group(1)) if keep_flag else "err", text)
+
+
 def case_payload(case):
     c = sx_parse(case)
     return c[3] if isinstance(c, list) and len(c) == 4 else c
